@@ -1058,7 +1058,7 @@ func (in *Interp) builtin(name string, args []Value, c *ssa.CallCommon, site ssa
 		}
 		idx := in.mapFind(m, args[1])
 		if idx >= 0 {
-			if in.monitorOn && in.underTest > 0 && (m.Org == OrgDoc || m.Org == OrgAST || m.Org == OrgGlobal) {
+			if in.monitorOn && in.underTest > 0 && in.parseDepth == 0 && (m.Org == OrgDoc || m.Org == OrgAST || m.Org == OrgGlobal) {
 				in.Events = append(in.Events, Event{Kind: "sharedwrite", Msg: "delete from " + m.Org.String() + " map", Where: in.where(), Stack: in.stackNames()})
 			}
 			m.Keys = append(m.Keys[:idx:idx], m.Keys[idx+1:]...)
